@@ -26,7 +26,7 @@ import time
 from . import c05_worker as w
 
 HOLD_TIMEOUT = 20.0
-BLOCK_TIMEOUT = 6.0
+BLOCK_TIMEOUT = 10.0
 
 
 def run_hold(spec):
